@@ -187,3 +187,54 @@ def r15_7_year_kinds(ctx: Ctx) -> RuleResult:
     rr = RuleResult("R15.7", "absolute years and years-of-era are never interchanged (stdlib dates take the absolute proleptic year, which the range guard then bounds)", min_instances=30)
     check_year_kinds(ctx, rr)
     return rr
+
+
+@rule("C15")
+def r15_9_memo_keys(ctx: Ctx) -> RuleResult:
+    """Conversions from the standard library types must not be memoised on keys whose equality is coarser than the value: an
+    aware datetime equals every other aware datetime denoting the same instant, whatever its offset (home: sa/memo.py)."""
+    from ..memo import memo_tables
+
+    rr = RuleResult("R15.9", "no conversion is memoised under a key that identifies less than the argument (aware datetimes at different offsets are equal)", min_instances=3)
+    for mt in memo_tables(ctx.M):
+        rr.inst(nontrivial=mt.table != "functools.cache")
+        if mt.problem:
+            rr.fail(mt.fn.qual, mt.problem, ctx.loc(mt.fn, mt.node))
+        else:
+            rr.ok()
+    return rr
+
+
+STDLIB_LOSSY = {
+    "astimezone": "shifts by the offset inside the stdlib range: OverflowError within one offset of datetime.min / datetime.max, where the direct tick arithmetic is exact",
+    "timestamp": "goes through a float number of seconds (and the platform's time_t range)",
+    "fromtimestamp": "float seconds and the platform's time_t range",
+    "utcfromtimestamp": "float seconds and the platform's time_t range",
+    "utctimetuple": "drops microseconds",
+    "timetuple": "drops microseconds",
+}
+
+
+@rule("C15")
+def r15_10_no_lossy_stdlib_routes(ctx: Ctx) -> RuleResult:
+    """The bridges compute with ticks / microseconds taken directly from the fields of the stdlib value (`_to_ticks`, replace,
+    utcoffset).  Routing a conversion through stdlib operations that are lossy or have a smaller domain than the values being
+    converted makes it fail or round exactly at the edges the property quantifies over."""
+    rr = RuleResult("R15.10", "stdlib bridges never go through astimezone / timestamp / fromtimestamp / timetuple (lossy or smaller-domain stdlib operations)", min_instances=6)
+    files = anchor_files("C15")
+    for f in sorted(set(ctx.M.func_of_node.values()), key=lambda x: x.qual):
+        if f.mod.rel not in files or isinstance(f.node, ast.Lambda):
+            continue
+        from ..kit import own_nodes
+
+        for n in own_nodes(f.node):
+            if isinstance(n, ast.Call) and isinstance(n.func, ast.Attribute) and n.func.attr in {"replace", "utcoffset", "tzinfo", "date", "time", "timetz", "isoformat", "combine"} | set(STDLIB_LOSSY):
+                tg, how = ctx.R.callees(n, f, count=False)
+                if how == "resolved":
+                    continue  # a repo method of that name
+                rr.inst()
+                if n.func.attr in STDLIB_LOSSY:
+                    rr.fail(f.qual, f"`{unparse(n)[:70]}`: {STDLIB_LOSSY[n.func.attr]}", ctx.loc(f, n))
+                else:
+                    rr.ok()
+    return rr
